@@ -156,7 +156,11 @@ func (r *ParseRequestResponse) injectFile(upload *Upload, paths []string) error 
 			parts = parts[1:]
 		}
 
-		if parts[0] != "variables" {
+		if idx < 0 || idx >= len(r.Requests) {
+			return fmt.Errorf("operation index %d out of bound %d in path: %s", idx, len(r.Requests), path)
+		}
+
+		if len(parts) == 0 || parts[0] != "variables" {
 			return fmt.Errorf("missing keyword variables in path: %s", path)
 		}
 
@@ -193,7 +197,7 @@ func (r *ParseRequestResponse) injectFile(upload *Upload, paths []string) error 
 				}
 
 				// index might not be within the bounds
-				if index >= len(v) {
+				if index < 0 || index >= len(v) {
 					return fmt.Errorf("file index %d out of bound %d", index, len(v))
 				}
 				fileVal := v[index]
